@@ -6,6 +6,8 @@ import math
 import os
 import random
 import re
+import shutil
+import tempfile
 import time
 
 import numpy as np
@@ -65,7 +67,7 @@ ODE_FILES = ["/repo/tests/odefiles/lorentz.ode", "/repo/tests/odefiles/fitzhughn
 ODE_FEATURES = ["exp", "log", "ln", "sqrt", "sin", "cos", "tan", "asin", "acos", "atan", "abs", "Abs", "floor", "Mod", "Conditional",
                 "Lt", "Gt", "Le", "Ge", "Eq", "Not", "And2", "Or2", "pow", "intquot", "sci", "time", "t", "unary", "nestcond"]
 T_IMPORT = ["C15:import-raises", "C15:name-not-unique", "C15:state-", "C15:constant-", "C15:parameter-extra"]
-T_RHS = ["C15:save-raises", "C15:reload-raises", "C15:codegen-raises", "C15:generated-module-invalid", "C15:rhs-"]
+T_RHS = ["C15:save-raises", "C15:reload-raises", "C15:reloaded-", "C15:codegen-raises", "C15:generated-module-invalid", "C15:rhs-"]
 T_BACK = ["C15:to-myokit-"]
 
 
@@ -401,8 +403,11 @@ def check(case):
     try:
         if "ode" in case or "ode_file" in case or "mseed" in case:
             return check_ode(case, res)
-        with cm.tempdir("replay_c15_") as d:
+        d = tempfile.mkdtemp(prefix="replay_c15_", dir=RUNDIR or cm.TMPROOT)
+        try:
             return check_myokit(case, res, d)
+        finally:
+            shutil.rmtree(d, ignore_errors=True)
     except Exception as e:  # noqa: BLE001
         import traceback
 
@@ -559,17 +564,17 @@ def reload_and_compare(case, res, ref, ode, d, base_inp, pts, key, add):
         return None
     missing = sorted(nm[v] for v in ref.states if nm[v] not in mod["state"])
     if missing or len(mod["state"]) != len(ref.states):
-        add("C15:state-missing:after-reload", "states of the reloaded model differ from Myokit's", base_inp, sorted(nm[v] for v in ref.states), sorted(mod["state"]))
+        add("C15:reloaded-state-missing", "states of the reloaded model differ from Myokit's", base_inp, sorted(nm[v] for v in ref.states), sorted(mod["state"]))
         return ode2, mod
     for v, x0 in zip(ref.states, ref.init):
         g = s0[mod["state_index"](nm[v])]
         if not cm.close(g, x0, 1e-14, 0):
-            add("C15:state-value-changed:after-reload", f"initial value of state {v.qname()} differs after save + load", base_inp, x0, float(g))
+            add("C15:reloaded-state-value-changed", f"initial value of state {v.qname()} differs after save + load", base_inp, x0, float(g))
     for v, val, is_num in ref.constants():
         if nm[v] in mod["parameter"]:
             g = p0[mod["parameter_index"](nm[v])]
             if not cm.close(g, val, 1e-14, 0):
-                add("C15:constant-value-changed:after-reload", f"value of constant {v.qname()} differs after save + load", base_inp, val, float(g))
+                add("C15:reloaded-constant-value-changed", f"value of constant {v.qname()} differs after save + load", base_inp, val, float(g))
     nontriv = ref.nontrivial_model()
     cm.note(res, "models-reloaded-and-compiled")
     for pt in pts:
@@ -858,8 +863,7 @@ def shrink_job(f, max_seconds=8.0):
     if not best:
         return f
     rest = {k: v for k, v in inp.items() if k not in ("mmt", "points", "export") and not k.startswith("_")}
-    stage = 2 if base.startswith(("C15:import-", "C15:name-", "C15:state-", "C15:constant-", "C15:parameter-")) and "after-reload" not in base else \
-        3 if base.startswith(("C15:save-", "C15:reload-", "C15:codegen-", "C15:generated-", "C15:rhs-")) or "after-reload" in base else 4
+    stage = 2 if base.startswith(tuple(T_IMPORT)) else 3 if base.startswith(tuple(T_RHS)) else 4
     progress = True
     while progress and time.time() < t_end:
         progress = False
@@ -882,4 +886,23 @@ def shrink_job(f, max_seconds=8.0):
     return best_f
 
 
-run, replay = cm.make_api(globals())
+RUNDIR = None  # per-run parent of all case directories: workers killed at the deadline cannot clean up themselves
+_run, _replay = cm.make_api(globals())
+
+
+def _in_rundir(fn, *args):
+    global RUNDIR
+    RUNDIR = tempfile.mkdtemp(prefix="replay_c15_run_", dir=cm.TMPROOT)
+    try:
+        return fn(*args)
+    finally:
+        shutil.rmtree(RUNDIR, ignore_errors=True)
+        RUNDIR = None
+
+
+def run(tier, seed, focus, deadline):
+    return _in_rundir(_run, tier, seed, focus, deadline)
+
+
+def replay(failure):
+    return _in_rundir(_replay, failure)
